@@ -306,3 +306,7 @@ func checkC12(t *testing.T, sc Script) *stats.Verdict {
 func TestC12(t *testing.T) {
 	stats.Run(t, stats.Prop[Script]{ID: "C12", Rule: ruleC12, Gen: genC12, Check: checkC12})
 }
+
+func FuzzC12(f *testing.F) {
+	stats.Fuzz(f, stats.Prop[Script]{ID: "C12", Rule: ruleC12, Gen: genC12, Check: checkC12})
+}
